@@ -259,7 +259,7 @@ func C14seen(p *load.Program, run *report.Run) {
 	run.Rule("single-assignment", "Seen.Set returns an error for an element that is already set, before it marks it: every wire of a parsed circuit is assigned once, by the inputs or by exactly one gate")
 	lints.CheckedTable(p, run, "circuit", "Seen")
 	run.Floor("checked-table-setters", 1)
-	run.Floor("checked-table-method-calls", 8)
+	run.Floor("checked-table-method-calls", 3)
 	run.Floor("checked-table-accesses", 2)
 }
 
